@@ -23,6 +23,35 @@ CLOCKS = {
     "2.5ns": ("frequency", "MHz", "400"),
 }
 
+# systematic (unit, mantissa, clock frequency) grid for Duration arguments: every combination whose exact rational
+# number of clock periods is an integer n within the tier's bound becomes a configuration of every Duration-based
+# utility; the complete grid (any n, and the non-dividing combinations) is swept at Python level by
+# duration_grid() / verif/checks/C16.py:duration_sweep.
+LADDER = {"1MHz": ("frequency", "MHz", "1"), "2MHz": ("frequency", "MHz", "2"), "4MHz": ("frequency", "MHz", "4"),
+          "5MHz": ("frequency", "MHz", "5"), "8MHz": ("frequency", "MHz", "8"), "10MHz": ("frequency", "MHz", "10"),
+          "20MHz": ("frequency", "MHz", "20"), "25MHz": ("frequency", "MHz", "25"), "50MHz": ("frequency", "MHz", "50"),
+          "100MHz": ("frequency", "MHz", "100"), "1GHz": ("frequency", "GHz", "1")}
+CLOCKS.update(LADDER)
+GRID_UNITS = ("ns", "us", "ms")
+GRID_MANTISSAS = ("0.5", "1", "1.5", "2", "2.5", "3", "4", "5", "6", "7.5", "8", "10", "12.5", "20", "25", "40", "50",
+                  "100", "125", "200", "250", "500")
+
+
+def duration_grid():
+    """all (unit, mantissa, clock name, exact ticks or None) of the grid"""
+    out = []
+    for u in GRID_UNITS:
+        for m in GRID_MANTISSAS:
+            for clk in LADDER:
+                out.append((u, m, clk, M.duration_ticks_exact((u, m), CLOCKS[clk])))
+    return out
+
+
+def grid_durations(thorough):
+    """grid points with an integer number n of periods, 1 <= n <= bound: [((unit, mantissa), clk, n)]"""
+    bound = 25 if thorough else 8
+    return [((u, m), clk, r) for u, m, clk, r in duration_grid() if r.denominator == 1 and 1 <= r <= bound]
+
 
 def clock_src(clk):
     if clk is None:
@@ -268,6 +297,8 @@ def wait_configs(thorough):
             for d in durs:
                 add(api, "seq", [("dur", d, clk)], clk=clk, wmax=12)
             add(api, "two", [("dur", durs[1], clk), ("dur", durs[0], clk)], clk=clk, wmax=12)
+        for d, clk, n in grid_durations(thorough):
+            add(api, "seq", [("dur", d, clk)], clk=clk, wmax=25)
         # Waiter with a Duration maximum
         if api == "waiter":
             add(api, "seq", [("dur", ("ns", "8"), "4ns")], clk="4ns", wmax=("ns", "12"))
@@ -648,6 +679,8 @@ def toggle_configs(thorough):
         add(["dur", durs[1][0], durs[1][1]], ["dur", durs[0][0], durs[0][1]], 0, 0, 0, "sig", clk=clk)
         add(["dur", durs[0][0], durs[0][1]], 2, 0, 0, 0, "sig", clk=clk)
         add(["dur", durs[0][0], durs[0][1]], "rt", 0, 0, 0, "sig", clk=clk)
+    for d, clk, n in grid_durations(thorough):
+        add(["dur", d[0], d[1]], None, 0, 0, 0, "sig", clk=clk)
     return out
 
 
@@ -694,6 +727,8 @@ def divider_configs(thorough):
         for d in durs:
             for tas in (0, 1):
                 add(["dur", d[0], d[1]], 0, tas, 0, "sig", clk=clk)
+    for d, clk, n in grid_durations(thorough):
+        add(["dur", d[0], d[1]], 0, 0, 0, "sig", clk=clk)
     return out
 
 
@@ -740,6 +775,8 @@ def debounce_configs(thorough):
         for d in durs:
             for initial in (0, 1):
                 add(["dur", d[0], d[1]], initial, None, clk=clk)
+    for d, clk, n in grid_durations(thorough):
+        add(["dur", d[0], d[1]], 0, None, clk=clk)
     return out
 
 
